@@ -129,3 +129,8 @@ UNIT = {
          'replace': r'hoist_array4_f32(\1, \2, \3, \4, update)'}]),
  },
 }
+
+# C10 (documents built from scratch reload equal, mechanism "derived dictionary writers incl. indirect fields"): Rectangle (page boxes), Option<T> writer (every optional entry), i32 (/Rotate), u32 (/Count), Name (/Type, /Subtype) and the accessors their readers call
+# -- the same obligations also count for C10 (no contract changed).
+for k__ in ['Primitive::resolve', 'Primitive::as_integer', 'Primitive::as_u32', 'Primitive::as_number', 'Primitive::into_array', 'Primitive::into_name', 'i32_from_primitive', 'i32_to_primitive', 'u32_from_primitive', 'u32_to_primitive', 'name_from_primitive', 'name_to_primitive', 'option_to_primitive', 'rect_from_primitive', 'rect_to_primitive']:
+    UNIT['items'][k__]['props'] = list(UNIT['items'][k__]['props']) + ['C10']
